@@ -855,3 +855,12 @@ package frugal
 //@   ensures result == h.requestSizeLimit
 //@ func lib.fAdapterTransport.GetRequestSizeLimit(f)
 //@   ensures result == 0
+
+// Every session reads through framing state of its own (C06: bytes owed by a frame of a dead session
+// must not swallow the responses of the next one).
+//@ func lib.NewTFramedTransport(transport)
+//@   ensures result != nil && fresh(result) && result.frameSize == 0
+//@   modifies *
+//@ func lib.fAdapterTransport.readLoop(f, closeSignal)
+//@   loop 0 invariant framedTransport != nil && fresh(framedTransport)
+//@   modifies *
